@@ -359,12 +359,12 @@ add(
              "assumption: the first byte is a digit (parse_number_fraction is entered on a digit)"],
       args=["simd_check.py", "--jobs", "6", "--timeout-ms", "20000"], cost=10, timeout=600),
     H("s_parse_number_shapes", "smt", ["C07", "C02", "C08"], ["sonic_number::parse_number", "parse_number_fraction", "parse_exponent", "arch::fallback::simd_str2int (scalar 16-digit reader)", "POW10_UINT"],
-      "1440 literal shapes: sign x integer part (0, or 1/2/3/16..21 digits) x 0/1/2/3/15..19 fraction digits x {no exponent, e dd, E-d, e+ddd} x {end of input, more input}; every value of every digit",
+      "1764 literal shapes: sign x integer part (0, or 1/2/3/16..21 digits) x 0/1/2/3/15..19 fraction digits x {no exponent, e dd, E-d, e+ddd} x {end of input, more input}, plus 324 malformed ones (dot or exponent marker without a digit) that must be rejected; every value of every digit",
       stubs=["opaque: parse_float - its arguments are what is asserted (what it returns for them is decided by the s_float_* runs)",
              "what follows the literal is one fixed 25-byte tail (the scanner only looks at its length)"],
       args=["number_check.py", "--jobs", "8", "--timeout-ms", "20000", "--shapes", "quick"], cost=130, timeout=850),
     H("s_parse_number_shapes_all", "smt", ["C07", "C02", "C08"], ["sonic_number::parse_number", "parse_number_fraction", "parse_exponent", "arch::fallback::simd_str2int (scalar 16-digit reader)", "POW10_UINT"],
-      "every shape with sign x integer part (0, or 1..=22 digits) x 0..=22 fraction digits x {no exponent, e/E x sign/no sign x 1..=3 digits} x {end of input, more input}; every value of every digit",
+      "every shape with sign x integer part (0, or 1..=22 digits) x 0..=22 fraction digits x {no exponent, e/E x sign/no sign x 1..=3 digits} x {end of input, more input}, plus the malformed ones (dot or exponent marker without a digit); every value of every digit",
       stubs=["opaque: parse_float - its arguments are what is asserted (what it returns for them is decided by the s_float_* runs)",
              "what follows the literal is one fixed 25-byte tail (the scanner only looks at its length)"],
       args=["number_check.py", "--jobs", "14", "--timeout-ms", "60000", "--shapes", "all"], tier=T, cost=1500, timeout=7200),
